@@ -401,6 +401,9 @@ func lexSpaces(c *explore.Ctx, conformance, positions bool, delta int) {
 	blockBad := []string{"a", " ", "\n", "\r", "\a", "é", `"`, "\u2028"}
 	seq("block-bodies-invalid", blockBad, c.Pick(6, 8)+delta, func(b string) string { return `"""` + b + `""" a` }, `block-string bodies with a character that is no SourceCharacter (U+0007) and one that looks like a line break but is none (U+2028) after line terminators and multi-byte characters, wrapped as """…""" a, over `+strings.Join(quoteAll(blockBad), " "))
 
+	comment := []string{"a", " ", "\t", "\n", "\r", "\a", "\x00", "\x1f", "\x7f", "é", "\ufeff", "\u2028", `"`, "#", ","}
+	seq("comment-bodies", comment, c.Pick(5, 6)+delta, func(b string) string { return "#" + b + "\na" }, `comment bodies wrapped as #…LF a: characters that are no SourceCharacter (U+0000, U+0007, U+001F) end the comment and are then rejected, DEL, BOM, U+2028 and non-ASCII text belong to it, over `+strings.Join(quoteAll(comment), " "))
+
 	// block strings as sequences of lines (the dedent algorithm works line by line): every
 	// sequence of ≤ 4/5 lines over blank lines shorter than, equal to and longer than the indent
 	// of the text lines, text lines at several indents, tabs
